@@ -596,8 +596,18 @@ func stage3() {
 		for b := a; b < n; b++ {
 			if chk.Quick() {
 				// every operation with itself, its neighbour, and every other operation of the same
-				// family (same name prefix up to the first '-'): families share tables and helpers
-				same := strings.SplitN(opNames[a], "-", 2)[0] == strings.SplitN(opNames[b], "-", 2)[0]
+				// family (same name prefix up to the first '-'): families share tables and helpers;
+				fam := strings.SplitN(opNames[a], "-", 2)[0]
+				same := fam == strings.SplitN(opNames[b], "-", 2)[0]
+				if same { // a sliding window of the next six operations of the family (the thorough tier runs all pairs)
+					between := 0
+					for x := a + 1; x < b; x++ {
+						if strings.SplitN(opNames[x], "-", 2)[0] == fam {
+							between++
+						}
+					}
+					same = between < 6
+				}
 				if !(b == a || b == a+1 || same || b == (a+11)%n) {
 					continue
 				}
